@@ -173,7 +173,7 @@ class ClassTable:
         for node in info.node.body:
             if isinstance(node, (ast.FunctionDef, ast.AsyncFunctionDef)):
                 # keep the last definition that is not an @overload stub
-                decos = [world.qualify(info.module, d) for d in node.decorator_list if dotted(d)]
+                decos = [world.qualify(module_of(node), d) for d in node.decorator_list if dotted(d)]
                 if 'typing.overload' in decos:
                     continue
                 info.own[node.name] = node
@@ -186,10 +186,10 @@ class ClassTable:
                     if node.value is not None:
                         info.own[node.target.id] = node
                     continue
-                static = _is_static_field(world, info.module, node.value)
+                static = _is_static_field(world, module_of(node), node.value)
                 has_default = node.value is not None and not (
                     isinstance(node.value, ast.Call)
-                    and world.qualify(info.module, node.value.func) in ('equinox.field', 'dataclasses.field')
+                    and world.qualify(module_of(node), node.value.func) in ('equinox.field', 'dataclasses.field')
                     and not any(kw.arg in ('default', 'default_factory') for kw in node.value.keywords)
                 )
                 info.own_fields.append(
@@ -474,7 +474,7 @@ class ClassTable:
         elts = value.elts if isinstance(value, ast.Tuple) else [value]
         out = []
         for e in elts:
-            q = self.world.qualify(owner.module, e)
+            q = self.world.qualify(module_of(e), e)
             c = self.find(q) if q else None
             if c is None:
                 raise Incomplete(site(value), f'{cls.name}.{name} names {ast.unparse(e)} which is not an in-package class')
@@ -490,7 +490,7 @@ def _is_property(world: World, k: ClassInfo, fn: ast.AST) -> bool:
     if not isinstance(fn, ast.FunctionDef):
         return False
     for d in fn.decorator_list:
-        q = world.qualify(k.module, d)
+        q = world.qualify(module_of(d), d)
         if q in ('property', 'builtins.property', 'functools.cached_property'):
             return True
     return False
